@@ -174,7 +174,7 @@ def check_closed_form(ctx, c):
             viacor = np.asarray(model.cor(s * lags / d["len_scale"]), dtype=float)
         e3 = np.abs(viacor - got["correlation"])
         # h = s*r/l is rounded before cor is applied: allow the propagated relative rounding of the argument
-        if not np.all(e3 <= 1e-12 + 1e-13 * np.abs(s * lags / d["len_scale"]) * 10):
+        if not np.all(e3 <= 1e-12 + 1e-13 * np.abs(s * lags / d["len_scale"]) * 10 + 2 * ocov.evaluation_slack(d)):
             i = int(np.nanargmax(e3))
             ctx.fail({"what": "correlation(r)!=cor(s*r/l)", "model": d["name"]}, f"r={lags[i]!r}: {viacor[i]!r} vs {got['correlation'][i]!r}")
     if not abs(model.len_rescaled - d["len_scale"] / s) <= 1e-14 * d["len_scale"] / s:
